@@ -161,7 +161,7 @@ def seq_norm(d):
     if type(d) in (list, tuple):
         return [seq_norm(x) for x in d]
     if type(d) is dict:
-        return {(tuple(seq_norm(k)) if type(k) in (list, tuple) else k): seq_norm(x) for k, x in d.items()}
+        return {(refmodel._deep_tuple(k) if type(k) in (list, tuple) else k): seq_norm(x) for k, x in d.items()}
     return d
 
 
